@@ -244,6 +244,10 @@ def check(ctx):
             funcs.append(m)
     n7 = stream.r7_guard_dominance(ctx, funcs)
     run.floor('R7', n7, 8, 'guarded descriptor-writing paths')
+    # ... and, for the steps that exist to edit the selected descriptors, the converse: selected => edited
+    editors = [ctx.repo.func('dataflows.processors.%s:%s.func' % (m_, m_)) for m_ in ('update_resource', 'update_schema', 'set_primary_key')]
+    n7e = stream.r7_selected_edited(ctx, editors)
+    run.floor('R7e', n7e, 3, 'matched paths of the descriptor editors')
     # R6c: stream phase
     n6 = stream.r6_identity(ctx)
     cls_steps = []
